@@ -831,6 +831,7 @@ func main() {
 	draws()
 	inputs()
 	pageInputs()
+	pageCursorSequences()
 	lifecycle()
 	modes()
 	fullQueue()
